@@ -253,7 +253,7 @@ func c03Shapes(deepOpt ...bool) []Shape {
 		Pr(Call("first", Ints(N(4)), Call("mk"))), SSet("a", N(0), N(50)), Pr(Idx("a", N(0)), Idx("b", N(0)))))
 	add("substring-end-expressions", Prog(Def("s", S("abcdef")), Def("n", N(5)), Def("i", N(4)),
 		Pr(Substr{S: V("s"), Lo: N(1), Hi: Op("-", Len(V("s")), N(1))}), Pr(Substr{S: V("s"), Hi: Op("-", V("n"), N(2))}), Pr(Substr{S: V("s"), Lo: N(0), Hi: Op("-", V("i"), N(1))}),
-		Pr(Substr{S: V("s"), Lo: Op("-", V("n"), N(3)), Hi: Op("+", V("i"), N(1))}), Pr(Substr{S: V("s"), Lo: Op("-", V("i"), N(2)), Hi: Op("-", V("n"), V("i"))}),
+		Pr(Substr{S: V("s"), Lo: Op("-", V("n"), N(3)), Hi: Op("+", V("i"), N(1))}), Pr(Substr{S: V("s"), Lo: Op("-", V("i"), N(2)), Hi: Op("-", N(9), V("i"))}),
 		Pr(StrIdx{S: V("s"), I: Op("-", V("n"), N(1))}), Pr(Substr{S: V("s"), Lo: N(1), Hi: P(Op("-", V("n"), N(1)))})))
 	add("grow-then-assign-low-index", Prog(Def("s", Ints()), For3(Def("i", N(0)), Op("<", V("i"), N(12)), Inc("i"), SSet("s", V("i"), Op("*", V("i"), N(10)))),
 		SSet("s", N(3), L(0)), Pr(Len(V("s")), Idx("s", N(3)), Idx("s", N(11))), Def("t", Ints(N(1), N(2), N(3), N(4), N(5), N(6), N(7), N(8), N(9))), SSet("t", N(10), N(7)), Pr(Len(V("t")), Idx("t", N(9)), Idx("t", N(10)))))
